@@ -672,3 +672,18 @@ def c12_h(ctx):
     ctx.check(zeros >= {0, 1, 2}, rst, 'reset state = (0, 0, 0)', '',
               'the adaptation round does not start from count = mean = M2 = 0', fn=rst,
               node=rst.node)
+
+
+@obligation('C12-i', 'T2', 'the adaptive scale and the distances contain no absolute tolerance',
+            floor=4,
+            necessary='the scale is the population standard deviation for all data: a special case '
+                      'for spreads below an absolute number (np.isclose(scale, 0)) replaces the '
+                      'scale of a summary measured in small units by another number')
+def c12_i(ctx):
+    from .base import scale_free_sweep
+    fns = []
+    for q in ('elfi.model.elfi_model:AdaptiveDistance', 'elfi.model.elfi_model:Distance'):
+        fns += [m for m in ctx.cls(q).methods.values()]
+    fns.append(ctx.fn('elfi.model.utils:distance_as_discrepancy'))
+    scale_free_sweep(ctx, fns, 'a summary whose spread is below the tolerance gets another scale '
+                               'than its standard deviation')
